@@ -7,7 +7,8 @@ HARNESS = "c20"
 DRIVER = "c20"
 PROPS_MODULE = "OxyModel.Props.C20"
 AUDIT = "OxyModel/Audit/C20.lean"
-THEOREMS = ["C20.C20_transparent", "C20.C20_decorate_only_cookies", "C20.C20_decisive_at", "C20.C20_decisive",
+THEOREMS = ["C20.C20_expectBody_false_iff", "C20.C20_buffer_drops_body_kinds", "C20.C20_retry_stateful_link",
+            "C20.C20_transparent", "C20.C20_decorate_only_cookies", "C20.C20_decisive_at", "C20.C20_decisive",
             "C20.C20_status_table", "C20.C20_response_limit", "C20.C20_abort_restores", "C20.C20_abort_state",
             "C20.C20_failed_hijack_relayed", "C20.C20_info_implicit_final_counterexample", "C20.C20_retry_documented"]
 RACE = False
@@ -28,7 +29,8 @@ ASSUMPTIONS = [
     "a Buffer swallows 1xx responses and Flush by design; a front writer without Hijack/Flush (cfg front=) cannot be given these capabilities by the stack: the monitor demands them only where the front offers them",
     "a retrying buffer sees the same handler behaviour on every attempt of one request (the script is fixed per scenario); retry predicates other than IsNetworkError() && Attempts() <= 2 are C07",
     "Verbose/Debug/Logger options (layer option /v) are modelled as having no effect on the request/response path",
-    "handlers do not write a body with 204/304, do not set Content-Length/Grpc-Status themselves and requests carry no sticky cookie; HEAD requests and buffer retries are not generated",
+    "handlers do not write a body with 204/304 and set Content-Length only as `0` with an empty body (net/http itself refuses the body otherwise); requests are GET/POST and carry no sticky cookie (HEAD: net/http sends no body whatever a handler writes)",
+    "documented Buffer behaviour, not a transparency violation: a Buffer relays no body for responses its expectBody rejects -- a non-empty Grpc-Status other than 0 (gRPC support), Content-Length: 0, 1xx/204/304; the model has every branch (C20_buffer_drops_body_kinds), C20_transparent carries the hypothesis bodyDomain, the generator emits these shapes and the monitor expects the empty body for exactly them when a buffer is in the stack",
     "flush=1 means the flushed bytes were read by the client while the handler was still running (negative answer only after 1 s and 500 executed polls)",
     "an HTTP exchange that hits the 25 s client timeout is repeated once as a fresh request (machine-wide stalls during memory exhaustion by unrelated processes were observed); a reproducible hang still fails",
 ]
@@ -37,7 +39,8 @@ TRUSTED = ["mailgun/multibuf (buffering of bodies) as used by buffer.Buffer: mod
 KINDS = ["stream", "trace", "connlimit", "ratelimit", "cbreaker", "roundrobin", "rebalancer", "buffer"]
 STATEFUL = {"connlimit", "ratelimit", "cbreaker", "roundrobin", "rebalancer"}
 STATUSES = ["none", "none", "200", "201", "202", "203", "206", "400", "401", "403", "404", "409", "418", "429", "500", "502", "503", "504"]
-EXTRA_HDRS = ["X-A=1", "X-A=2", "X-Verif-Long=" + "v" * 90, "Set-Cookie=hc=1", "Set-Cookie=sk0=mine", "Cache-Control=no-store", "Location=/x",
+EXTRA_HDRS = ["Grpc-Status=0", "Grpc-Status=5", "Grpc-Status=13", "Grpc-Message=oops",
+              "X-A=1", "X-A=2", "X-Verif-Long=" + "v" * 90, "Set-Cookie=hc=1", "Set-Cookie=sk0=mine", "Cache-Control=no-store", "Location=/x",
               "Retry-After=7", "X-Retry-In=9s", "Etag=abc", "X-Forwarded-For=10.0.0.1", "Vary=Accept"]
 CHUNKS = [0, 1, 5, 12, 100, 1000, 2048, 4096, 5000]
 SKIP_HDR = {"Date", "Content-Length", "Transfer-Encoding", "Connection"}
@@ -194,6 +197,11 @@ def monitor(ops, outs):
         if status != want_status:
             bad.append("transparent: handler status %d, client got %d" % (want_status, status))
         bb = body_bytes(sc["chunks"])
+        # documented Buffer behaviour (expectBody): no body is relayed for a non-empty Grpc-Status other than "0" or Content-Length: 0
+        grpc = next((v for k, v in sc["hdrs"] if k == "Grpc-Status"), "")
+        clen = next((v for k, v in sc["hdrs"] if k == "Content-Length"), "")
+        if has_buffer_early(stack) and not hij and (grpc not in ("", "0") or clen == "0"):
+            bb = b""
         want_body = "%d:%08x" % (len(bb), zlib.adler32(bb) & 0xffffffff)
         if kv["body"] != want_body:
             if known_shape(stack, sc) and not hij:
@@ -230,6 +238,10 @@ def monitor(ops, outs):
         if not hij and not has_buffer and kv.get("info", "-") != (",".join(map(str, sc["info"])) or "-"):
             bad.append("transparent: informational responses %s, client saw %s" % (sc["info"], kv.get("info")))
     return bad
+
+
+def has_buffer_early(stack):
+    return any(lay["kind"] == "buffer" for lay in stack)
 
 
 def known_shape(stack, sc):
@@ -335,6 +347,8 @@ def script(rng, flush=None, hijack=None):
     # net/http itself deletes Content-Type from a 304 (also for the bare handler); every other response sets one so that nothing is sniffed
     hd = [] if status == "304" else ["Content-Type=" + rng.choice(["text/verif", "text/verif", "application/json", "text/html"])]
     hd += rng.sample(EXTRA_HDRS, rng.choice([0, 1, 1, 2, 3]))
+    if not chunks and rng.random() < 0.15:
+        hd.append("Content-Length=0")
     # the flush point lies within the first 2000 body bytes: beyond net/http's own buffers bytes reach the client without any
     # Flush, and "delivered while the handler runs" would no longer be attributable to the Flush call
     ok_points = [k for k in range(1, len(chunks) + 1) if sum(chunks[:k]) <= 2000]
@@ -442,11 +456,17 @@ def post_check(chk):
 MANIFEST = {
     "text": ("Proof: Lean 4 theorems C20_transparent (every stack whose layers all pass: exactly one invocation, response = handler's response plus "
              "only the sticky cookies, hijack works, flush works unless a buffer is in the stack), C20_decisive / C20_decisive_at (the outermost "
-             "intervening layer's response reaches the client, zero invocations), C20_status_table and C20_response_limit, by induction over the "
+             "intervening layer's response reaches the client, zero invocations), C20_status_table, C20_response_limit, C20_retry_documented (502/504 behind "
+             "retrying buffers: 3^k runs; linked to the stateful loop by C20_retry_stateful_link), C20_abort_restores, C20_failed_hijack_relayed and "
+             "C20_buffer_drops_body_kinds (exactly which responses a Buffer relays without body), by induction over the "
              "stack (any order, depth, repetition; any handler script). The model Stack.serveStack is tied to the code by running real stacks of the "
              "real middlewares behind a real HTTP server (thorough: all ordered subsets of depth <= 4) against the compiled model."),
-    "note": ("Partial for the byte-level relay: net/http's response writing, Flush and Hijack are exercised, not proved. Each layer's decision to "
-             "intervene is an input of the model (proved per layer under C02-C05/C15). Trusted: Lean kernel; propext/Classical.choice/Quot.sound; "
+    "note": ("Partial: (1) the byte-level relay -- net/http's response writing, Flush and Hijack are exercised on every scenario, not proved; (2) each "
+             "layer's decision to intervene is an input of the model (proved per layer under C02-C05/C15); (3) C20_transparent holds on explicit "
+             "domains: infoDomain (1xx only with an explicit final status behind a Buffer -- outside it the code drops the body: open known finding "
+             "buffer_1xx_implicit_final, C20_info_implicit_final_counterexample) and bodyDomain (responses Buffer.expectBody keeps; the others lose "
+             "their body by documented design); (4) C20_abort_restores assumes no retrying buffer and >= 2 rate tokens, C20_retry_stateful_link no rate "
+             "limiter in the stack; a retrying buffer is modelled with the same handler behaviour on every attempt. Trusted: Lean kernel; propext/Classical.choice/Quot.sound; "
              "the hand-written model is validated against the code on the generated stacks only."),
     "technique": "Lean 4 proof (induction over the layer list) over executable model + differential correspondence with real middleware stacks over HTTP",
 }
